@@ -144,8 +144,8 @@ var checkKDE = ev.Register("kde", func(c *Case) ev.Outcome {
 	if !(a <= mn && mx < b) {
 		return ev.Fail("harness error: data outside the boundaries")
 	}
-	if (c.Cfg == 1 && a == 0) || (c.Cfg == 2 && b == 0) || (c.Cfg == 3 && a == 0 && b == 0) {
-		return ev.Fail("harness error: a zero boundary paired with an infinite one means 'unset'")
+	if c.Cfg == 3 && a == 0 && b == 0 {
+		return ev.Fail("harness error: both boundaries zero means 'unset'")
 	}
 	m := &model{xs: c.Xs, kernel: c.Kernel, h: c.BW}
 	m.w = c.W
@@ -287,6 +287,9 @@ var checkKDE = ev.Register("kde", func(c *Case) ev.Outcome {
 		}
 	}
 	classes := []string{[]string{"epanechnikov", "gaussian", "delta"}[c.Kernel], []string{"unbounded", "lower-bound", "upper-bound", "both-bounds"}[c.Cfg]}
+	if (c.Cfg == 1 || c.Cfg == 3) && a == 0 || (c.Cfg == 2 || c.Cfg == 3) && b == 0 {
+		classes = append(classes, "boundary-at-zero")
+	}
 	if c.W != nil {
 		classes = append(classes, "weighted")
 	}
@@ -519,12 +522,36 @@ func drawCase(t *rapid.T) *Case {
 	if c.Cfg == 3 && c.Hi-c.Lo < spread {
 		c.Hi = c.Lo + spread*1.5
 	}
-	// a boundary value of exactly zero next to an infinite one reads as "unset"
-	if c.Cfg == 1 && c.Lo == 0 {
-		c.Lo = -spread * 1e-3
-	}
-	if c.Cfg == 2 && c.Hi == 0 {
-		c.Hi = spread * 1e-3
+	// a boundary at exactly 0 is a boundary like any other as long as the other one is set
+	// (to a finite value or to +/-Inf): translate everything so that it is
+	if c.Cfg != 0 && rapid.IntRange(0, 4).Draw(t, "zeroBoundary") == 0 {
+		shift := c.Lo
+		if c.Cfg == 2 || (c.Cfg == 3 && rapid.Bool().Draw(t, "zeroUpper")) {
+			shift = c.Hi
+		}
+		for i := range c.Xs {
+			c.Xs[i] -= shift
+		}
+		if c.Cfg == 1 || c.Cfg == 3 {
+			c.Lo -= shift
+		}
+		if c.Cfg == 2 || c.Cfg == 3 {
+			c.Hi -= shift
+		}
+		mn, mx = mn-shift, mx-shift
+		// re-establish data inside [lo, hi) after the rounding of the translation
+		for i, x := range c.Xs {
+			if (c.Cfg == 1 || c.Cfg == 3) && x < c.Lo {
+				c.Xs[i] = c.Lo
+			}
+			if (c.Cfg == 2 || c.Cfg == 3) && !(x < c.Hi) {
+				c.Xs[i] = math.Nextafter(c.Hi, math.Inf(-1))
+			}
+		}
+		mn, mx = c.Xs[0], c.Xs[0]
+		for _, x := range c.Xs {
+			mn, mx = math.Min(mn, x), math.Max(mx, x)
+		}
 	}
 	np := rapid.IntRange(2, 8).Draw(t, "nprobes")
 	for i := 0; i < np; i++ {
